@@ -286,6 +286,21 @@ func c16RuneNarrowing(c *Ctx, r *Report) {
 			return true
 		})
 	}
+	// the reverse direction: a single byte of the text written as if it were a code point
+	for _, fi := range c.AllFuncDecls(minijsonPkg) {
+		info := fi.Pkg.TypesInfo
+		vi := analyseVars(info, fi.Decl)
+		fg := NewFGraph(fi.Decl.Body, info)
+		fg.SolveFacts(vi)
+		pr := &prover{info: info, vi: vi, fg: fg, body: fi.Decl.Body}
+		for _, ce := range byteAsRuneSites(info, fi.Decl.Body, func(arg ast.Expr, pos token.Pos) bool {
+			facts := fg.FactsAtPos(pos)
+			return pr.proveRange(arg, facts, 0, 0x7f) != "" || pr.holdsText(exprStr(arg)+" < 128", facts)
+		}) {
+			n++
+			r.Bad(rule, fi.Name, exprStr(ce), c.Pos(ce.Pos()), "a byte of the text is widened to a rune on the JSON output path: every byte of a multi-byte character is then re-encoded on its own (é becomes Ã©), so the member no longer decodes to the captured text")
+		}
+	}
 	// zero expected: keep a positive control so that the rule cannot rot silently
 	r.OK(rule, minijsonPkg, "self-test", "-", fmt.Sprintf("scan: %d narrowing conversion(s) examined; the rule's matcher is exercised by checker/selftest", n))
 	_ = token.NoPos
